@@ -36,7 +36,10 @@ type ConcState struct {
 	alias map[ssa.Value]ssa.Value
 	mem   map[*ssa.Alloc]ssa.Value
 	tup   map[*ssa.Call][]ssa.Value // results of an inlined multi-result helper call
-	cfg   *ConcCfg
+	// fmem: integer/boolean values stored into struct fields on this path, keyed by the address rendered in the
+	// root function's terms; forgotten at every call into zap code that is not explored inline
+	fmem map[string]int64
+	cfg  *ConcCfg
 }
 
 // Step returns the value v stands for on this path (nil: v itself).
@@ -99,6 +102,12 @@ func (st *ConcState) clone() *ConcState {
 		n.tup = make(map[*ssa.Call][]ssa.Value, len(st.tup))
 		for k, v := range st.tup {
 			n.tup[k] = v
+		}
+	}
+	if len(st.fmem) > 0 {
+		n.fmem = make(map[string]int64, len(st.fmem))
+		for k, v := range st.fmem {
+			n.fmem[k] = v
 		}
 	}
 	for k, v := range st.ints {
@@ -248,6 +257,9 @@ type ConcCfg struct {
 	// Inline decides whether an eligible helper is explored; nil: all.
 	Inline    func(h *ssa.Function) bool
 	MaxStates int
+	// Unroll keeps loop-carried values whose integer value is evident on the path (constant-bounded counting loops are
+	// then walked iteration by iteration); all other loop-carried values are forgotten at the loop head.
+	Unroll bool
 }
 
 func vkey(v ssa.Value) string {
@@ -306,6 +318,9 @@ func ConcPaths(fn *ssa.Function, cfg ConcCfg) (seqs []string, truncated bool) {
 			}
 			facts = append(facts, f)
 		}
+		for a, k := range st.fmem {
+			facts = append(facts, "@"+a+"="+strconv.FormatInt(k, 10))
+		}
 		sort.Strings(facts)
 		sb.WriteString(strings.Join(facts, ","))
 		return sb.String()
@@ -331,6 +346,15 @@ func ConcPaths(fn *ssa.Function, cfg ConcCfg) (seqs []string, truncated bool) {
 				cloned = true
 			}
 			if pi < 0 || loopHead {
+				if pi >= 0 && cfg.Unroll {
+					// counting loops: keep an induction variable whose value is evident on this path
+					if _, ok := st.eval(ph.Edges[pi], 0); ok {
+						bind(ns, st, ph, ph.Edges[pi])
+						delete(ns.alias, ph)
+						delete(ns.syms, ph)
+						continue
+					}
+				}
 				bind(ns, st, ph, nil)
 				continue
 			}
@@ -361,6 +385,18 @@ func ConcPaths(fn *ssa.Function, cfg ConcCfg) (seqs []string, truncated bool) {
 			}
 			break
 		}
+		if ld, ok := c.(*ssa.UnOp); ok && ld.Op == token.MUL {
+			if _, isFA := ld.X.(*ssa.FieldAddr); isFA {
+				if ns.fmem == nil {
+					ns.fmem = map[string]int64{}
+				}
+				if pol {
+					ns.fmem[st.Desc(ld.X)] = 1
+				} else {
+					ns.fmem[st.Desc(ld.X)] = 0
+				}
+			}
+		}
 		if bo, ok := c.(*ssa.BinOp); ok && (bo.Op == token.EQL || bo.Op == token.NEQ) {
 			eq := (bo.Op == token.EQL) == pol
 			x, y := bo.X, bo.Y
@@ -390,6 +426,21 @@ func ConcPaths(fn *ssa.Function, cfg ConcCfg) (seqs []string, truncated bool) {
 		}
 		for k := idx; k < len(blk.Instrs); k++ {
 			in := blk.Instrs[k]
+			if v, isV := in.(ssa.Value); isV {
+				// a new dynamic instance of this register: facts about the previous one (loop iteration) are stale
+				if _, isPhi := in.(*ssa.Phi); !isPhi {
+					_, h1 := st.ints[v]
+					_, h2 := st.nils[v]
+					_, h3 := st.alias[v]
+					if h1 || h2 || h3 {
+						st = st.clone()
+						delete(st.ints, v)
+						delete(st.nils, v)
+						delete(st.alias, v)
+						delete(st.syms, v)
+					}
+				}
+			}
 			if cfg.Event != nil {
 				if _, isRet := in.(*ssa.Return); !isRet || len(stack) == 0 {
 					if e := cfg.Event(in, st); e != "" {
@@ -402,6 +453,17 @@ func ConcPaths(fn *ssa.Function, cfg ConcCfg) (seqs []string, truncated bool) {
 				if a, ok := x.Addr.(*ssa.Alloc); ok && plainLocal(a) {
 					st = st.clone()
 					st.mem[a] = x.Val
+				} else if _, isFA := x.Addr.(*ssa.FieldAddr); isFA {
+					ad := st.Desc(x.Addr)
+					st = st.clone()
+					if kv, ok := st.eval(x.Val, 0); ok {
+						if st.fmem == nil {
+							st.fmem = map[string]int64{}
+						}
+						st.fmem[ad] = kv
+					} else {
+						delete(st.fmem, ad)
+					}
 				}
 			case *ssa.Extract:
 				if call, ok := x.Tuple.(*ssa.Call); ok {
@@ -418,10 +480,22 @@ func ConcPaths(fn *ssa.Function, cfg ConcCfg) (seqs []string, truncated bool) {
 						bind(ns, st, x, val)
 						st = ns
 					}
+				} else if _, isFA := x.X.(*ssa.FieldAddr); isFA && x.Op == token.MUL && len(st.fmem) > 0 {
+					if kv, has := st.fmem[st.Desc(x.X)]; has {
+						st = st.clone()
+						st.ints[x] = kv
+					}
 				}
 			case *ssa.Call:
 				h := helperOf(x)
 				if h == nil || len(h.Blocks) == 0 || len(stack) >= 4 || cfg.Inline != nil && !cfg.Inline(h) {
+					if len(st.fmem) > 0 {
+						_, isBuiltin := x.Call.Value.(*ssa.Builtin)
+						if sc := StaticCallee(x); !isBuiltin && (sc == nil || curProgRoot(sc)) {
+							st = st.clone()
+							st.fmem = nil
+						}
+					}
 					break
 				}
 				onStack := false
